@@ -1,14 +1,17 @@
 import VrpModel.CacheFlags
+import VrpModel.PathFlags
 import Driver.Proto
 import Driver.GraphCmd
 import Driver.FormCmd
 /-!
-# driver commands for the flag-level cache model (`VrpModel/CacheFlags.lean`, C14)
+# driver commands for the flag-level cache model (`VrpModel/CacheFlags.lean`, C14) and for the operation-level model
+# of the cache-free path object (`VrpModel/PathFlags.lean`, C14; section "`flags.path`" at the end of this header)
 
 ## requests
 
     flags.arc <arc instance> <ops>
     flags.seq <seq instance> <ops>
+    flags.path <pool literal> <choices> <ops>          (described in its own section below)
 
 * `<arc instance>` is what `pArcInst` parses: `<graph> <k> t1 … tk` (the time points; they are sorted on entry),
   `<graph>` as parsed by `pGraph`:
@@ -85,6 +88,73 @@ Digests (all lists length-prefixed: `<k> x1 … xk`; a COO triple is `row col va
                                                        `raised err:value`); the flags are unset, the data unchanged
 
 `;` inside a digest and the ` ; flags` separator are literal tokens.
+
+## `flags.path`: the path-based object (`PathObj`, no caches, no flags)
+
+    flags.path <pool literal> <choices> <ops>
+
+* `<pool literal>` is what `pPathLit` parses (as for `path.heur` / `path.data`):
+  `<graph> <routes> <costs> <visited>` with `<graph>` as above, `<routes>` = `<k> {<m> i1 … im}*k` (the stored routes
+  as lists of node positions), `<costs>` = `<k> c1 … ck` (`route_costs`), `<visited>` = `<k> {<m> i1 … im}*k`
+  (`route_node_visited`).  A fresh object has the three lists empty: `<graph> 0 0 0`.  The object starts with
+  `feasible_solution = None`.
+* `<choices>` = `<k> c1 … ck` scripts the sampler of `generate_route` exactly as in `path.heur`: the `j`-th call of the
+  sampler within ONE heuristic run (j = 0, 1, …) that is offered the candidate list `cands` (in the order of the
+  unvisited list) returns `cands[c_(j mod k) mod len(cands)]`; with `k = 0` the first candidate.  Every `heur` operation
+  restarts the script at `j = 0`.
+* `<ops>` is a length-prefixed list `<k> op1 … opk`, each `op` one of the QUERIES
+
+      n                          get_num_variables()
+      obj                        get_objective_data()
+      con                        get_constraint_data()
+      qubo <feas 0/1> <rho|none> get_qubo(feasibility, penalty_parameter)
+      dec <k> x1 … xk            get_routes([x1, …, xk])    (selected = positions with xk ≠ 0)
+      chk <route>                check_route(route)
+
+  or of the STATE-CHANGING calls
+
+      route <route>                          add_route(route)
+      heur <high>                            make_feasible(high)
+      addarc <orig> <dest> <time> <cost>     add_arc(orig, dest, time, cost)       (base class; no-op hook)
+      addnode <name> <demand> <lo> <hi|inf>  add_node(name, demand, (lo, hi))
+      setdepot <name>                        set_depot(name)
+      setcap <c>                             set_vehicle_cap(c)
+      setinit <l>                            set_initial_loading(l)
+
+  `<route>` is a length-prefixed list of stops as in `path.hist`: `<k> {i:<idx> | n:<name>}*k` (`i:2` = node position 2,
+  `n:a` = node name `a`).  The mutators do not revalidate or re-index the stored routes.
+
+### reply
+
+    ok <group> | <group> | … | final <graph> | <routes> | <costs> | <solution>
+
+one `<group>` (= one digest, no flags) per operation, in order (with zero operations the reply is `ok final …`);
+`<routes>` is the pool as a length-prefixed list of length-prefixed index lists, `<costs>` the length-prefixed list
+`route_costs`, `<solution>` (the LAST part) `none` or the length-prefixed `feasible_solution`.  When `heur` raises, the
+final state is the PARTIAL one the code leaves behind (greedy routes already added, dummy node and arcs of the failing
+customer), and `<solution>` is what it was before.
+
+Digests:
+
+    n <num>
+    obj <c> ; <n>                                      linear objective (= route costs), side of the zero quadratic part
+    con <A triples> ; <b> ; <rows> <cols> <n>          A (COO `row col value`), rhs, shape of A, side of the zero Q_eq
+    qubo ok <n> <rho> <k> <sum of all entries of Q>    as for `flags.arc`
+    qubo err:shape                                     the pieces do not fit (only for a literal pool that `add_route`
+                                                       cannot have produced)
+    routes <k> {<m> name1 … namem}*k                   `get_routes` returned: node NAMES of each selected route
+    routes err:index                                   a selected position beyond the pool (`IndexError`)
+    chk ok:<feas 0/1>:<cost>                           `check_route` returned `(feasible, cost, …)`; for an infeasible route
+                                                       `<cost>` is the amount accumulated when the walk stopped
+    chk err:value | chk err:type                       unknown node name / load arithmetic on unset vehicle data
+    route ok:<feas 0/1>:<added 0/1>                    `add_route` returned `(feas, added)`
+    route err:value | route err:type
+    heur ok
+    heur raised <err>                                  err:assert (dummy route rejected), err:type (vehicle data unset),
+                                                       err:value
+    done                                               normal return of a void mutator
+    done 1 | done 0                                    `add_arc` returned True / False
+    raised <err>                                       the mutator raised (`raised err:value`); the data are unchanged
 -/
 namespace Vrp.Drv
 open Vrp Vrp.Proto
@@ -212,6 +282,66 @@ def cmdFlagsSeq : P String := do
   pure ("ok " ++ " | ".intercalate (r.2 ++ [s!"final {showGraph o.inst.g}", s!"{o.inst.V} {showRats o.inst.vcost}",
     s!"L {o.inst.L}", showOpt showRats o.sol]))
 
-def flagsCmds : List (String × P String) := [("flags.arc", cmdFlagsArc), ("flags.seq", cmdFlagsSeq)]
+/-! ### `flags.path` -/
+
+def pPathFOp : P PathFOp := do
+  let t ← tok
+  match t with
+  | "n" => pure .numVars
+  | "obj" => pure .objective
+  | "con" => pure .constraints
+  | "qubo" => do let f ← pBool; let r ← pRho; pure (.qubo f r)
+  | "dec" => do let x ← pList pRat; pure (.decode x)
+  | "chk" => do let r ← pList pStop; pure (.checkRoute r)
+  | "route" => do let r ← pList pStop; pure (.addRoute r)
+  | "heur" => do let h ← pRat; pure (.heur h)
+  | "addarc" => do let o ← tok; let d ← tok; let tm ← pRat; let c ← pRat; pure (.addArc o d tm c)
+  | "addnode" => do let nm ← tok; let d ← pRat; let lo ← pRat; let hi ← pERat; pure (.addNode nm d lo hi)
+  | "setdepot" => do let nm ← tok; pure (.setDepot nm)
+  | "setcap" => do let c ← pRat; pure (.setVehicleCap c)
+  | "setinit" => do let l ← pRat; pure (.setInitialLoading l)
+  | _ => throw s!"bad flags op {t}"
+
+def showPathReply (op : PathFOp) (r : PathReply) : String :=
+  match r with
+  | .num n => s!"n {n}"
+  | .obj c n => s!"obj {showRats c} ; {n}"
+  | .con A sh b n => s!"con {showList showTriple A} ; {showRats b} ; {sh.1} {sh.2} {n}"
+  | .qubo q => showQuboOut q
+  | .routes rs => s!"routes {showList (showList id) rs}"
+  | .chk f c => s!"chk ok:{showBool f}:{showRat c}"
+  | .added f a => s!"route ok:{showBool f}:{showBool a}"
+  | .done =>
+    match op with
+    | .heur _ => "heur ok"
+    | _ => "done"
+  | .arcAdded b => s!"done {showBool b}"
+  | .raised e =>
+    match op with
+    | .heur _ => s!"heur raised {showErr e}"
+    | .qubo _ _ => s!"qubo {showErr e}"
+    | .constraints => s!"con {showErr e}"
+    | .decode _ => s!"routes {showErr e}"
+    | .checkRoute _ => s!"chk {showErr e}"
+    | .addRoute _ => s!"route {showErr e}"
+    | _ => s!"raised {showErr e}"
+
+def runPathShow (pick : Nat → List Nat → Nat) : PathObj → List PathFOp → List String → PathObj × List String
+  | o, [], acc => (o, acc.reverse)
+  | o, op :: rest, acc =>
+    let r := o.step pick op
+    runPathShow pick r.1 rest (showPathReply op r.2 :: acc)
+
+def cmdFlagsPath : P String := do
+  let Pp ← pPathLit; let choices ← pList pNat; let ops ← pList pPathFOp; pEnd
+  let pick : Nat → List Nat → Nat := fun c cands =>
+    cands.getD ((choices.getD (c % (max choices.length 1)) 0) % (max cands.length 1)) 0
+  let r := runPathShow pick (PathObj.init Pp) ops []
+  let o := r.1
+  pure ("ok " ++ " | ".intercalate (r.2 ++ [s!"final {showGraph o.inst.g}",
+    showList (fun rt => showList toString rt) o.inst.routes, showRats o.inst.costs, showOpt showRats o.sol]))
+
+def flagsCmds : List (String × P String) :=
+  [("flags.arc", cmdFlagsArc), ("flags.seq", cmdFlagsSeq), ("flags.path", cmdFlagsPath)]
 
 end Vrp.Drv
